@@ -10,6 +10,7 @@ run: Dsp/RmsDrift.v, RmsProjProofs.v, RmsDriftProofs.v, RmsOutProofs.v)."""
 import json, os, re, struct, glob, sys
 from concurrent.futures import ThreadPoolExecutor
 import framework as F
+import cov_regions_util
 import floatbase
 
 PROP = "C11"
@@ -650,6 +651,8 @@ def finish(rep, info, items, outl, codes, dist, nostd_ok, bad=()):
     dist.update(hist)
     dist["frames_total"] = sum(1 for it in items for o in it["ops"] if o[0] in ("n", "q"))
     dist["no_std_harness"] = "built" if nostd_ok else ("not built" if nostd_ok is not None else "n/a")
+    dist["source_regions_never_entered"] = cov_regions_util.regions_for_evidence(
+        PROP, "Exclusions with reasons: lib/props/c11_cov_exclusions.json (Debug impl; the two cfg(not(std)) square roots, which the no_std harnesses execute; Sample::mul_amp = C03).")
     drift_proved = all(n in th for n in ("c11_drift_bound", "c11_drift_bound_f32", "c11_drift_bound_f64"))
     samples = [items[i]["line"][:400] for i in (0, len(items) // 2, len(items) - 1)] if items else []
     cov = {
